@@ -58,9 +58,10 @@ func knownShape(version string, r DrvReply) string {
 		return "hash-line-before-end"
 	}
 
-	i := strings.Index(r.Reply.Payload, `message-id="`)
+	i := strings.Index(r.Reply.Payload, `message-id=`)
 	if i >= 0 {
-		end := i + len(`message-id="`) + strings.Index(r.Reply.Payload[i+len(`message-id="`):], `"`) + 1
+		q := r.Reply.Payload[i+len(`message-id=`) : i+len(`message-id=`)+1]
+		end := i + len(`message-id="`) + strings.Index(r.Reply.Payload[i+len(`message-id="`):], q) + 1
 		if sizes[0] < end {
 			return "msgid-split-by-chunk"
 		}
@@ -96,7 +97,7 @@ func genDrv(t *rapid.T) DrvCase {
 		// LF sent after the previous delimiter belongs to the next message, so no declaration then
 		allowDecl := c.Version == "1.1" || !prevTrail
 		r := DrvReply{
-			Reply:   sim.GenReply(t, 101+i, "", allowDecl),
+			Reply:   sim.GenReplyOpt(t, 101+i, "", allowDecl, sim.ReplyOpt{Quotes: true}),
 			TrailLF: rapid.Bool().Draw(t, "trailLF"),
 			Op:      rapid.SampledFrom([]string{"get", "get-config", "rpc"}).Draw(t, "op"),
 		}
